@@ -1,11 +1,14 @@
 // C20 (appender half): AsyncFileAppender under the schedule fuzzer.
 //   1..3 logging threads stream framed entries of boundary lengths through their own LogStreamBuffer and
 //   write() them to 1..2 FileObjects backed by memfd descriptors (one may rotate its descriptor between
-//   batches); queue capacity 1..8; close() / destructor after the writers were joined.
+//   batches); queue capacity 1..8; close() / destructor after the writers were joined. A share of the entries goes
+//   through the front end instead (AsyncLogStream from AsyncLogStream::creator: header formatter, begin(args...),
+//   nested begin/end, noflush suspension, write / << / format pieces, the newline do_end appends).
 //   Oracle: the bytes of every file (rotated descriptors in order) parse into frames; every written entry is
 //   there exactly once, intact, in its own file, per-thread order preserved; every page is back with the
 //   recording allocator after close(); a rotated-out descriptor was closed by the appender.
 #include <babylon/logging/async_file_appender.h>
+#include <babylon/logging/async_log_stream.h>
 #include <babylon/logging/log_entry.h>
 
 #include <errno.h>
@@ -62,6 +65,9 @@ struct RecAlloc : public babylon::PageAllocator {
   std::map<void*, Info> pages;  // every block ever created in this case (lookups only)
   std::vector<void*> free_list;
   std::vector<void*>* collecting[dsched::MAXT] = {};  // per scheduled thread: pages handed out to it
+  int cur_entry[dsched::MAXT];  // per scheduled thread: entry being streamed through the front end (-1: none); its
+                                // pages are attributed when handed out, because do_end() may take one more page for
+                                // the newline and passes the entry on before the harness sees it again
   size_t outstanding = 0;
   size_t total_allocs = 0;
   std::vector<char> entry_released;  // by entry id: first page came back
@@ -73,7 +79,9 @@ struct RecAlloc : public babylon::PageAllocator {
   int* last_checked_reg = nullptr;  // registration order of the file object checked most recently
   std::vector<Dealloc> dealloc_calls;
 
-  explicit RecAlloc(size_t page_size) : ps(page_size) {}
+  explicit RecAlloc(size_t page_size) : ps(page_size) {
+    for (int& e : cur_entry) e = -1;
+  }
   ~RecAlloc() noexcept override {
     for (auto& kv : pages) free(kv.first);
   }
@@ -105,6 +113,10 @@ struct RecAlloc : public babylon::PageAllocator {
       total_allocs++;
       int t = dsched::tid();
       if (t >= 0 && t < dsched::MAXT && collecting[t]) collecting[t]->push_back(p);
+      if (t >= 0 && t < dsched::MAXT && cur_entry[t] >= 0) {
+        info.entry = cur_entry[t];
+        dsched::track_write(&info.ts, "log page taken by the logging thread");
+      }
       out[i] = p;
     }
   }
@@ -133,12 +145,15 @@ struct RecAlloc : public babylon::PageAllocator {
     }
   }
   // the logging thread finished an entry: attribute its pages and publish them for the happens-before check
-  void publish(const std::vector<void*>& handed, int entry, bool written) {
+  void declare(int entry, bool written) {
     if (entry_released.size() <= (size_t)entry) {
       entry_released.resize((size_t)entry + 1, 0);
       entry_is_written.resize((size_t)entry + 1, 0);
     }
     entry_is_written[(size_t)entry] = written ? 1 : 0;
+  }
+  void publish(const std::vector<void*>& handed, int entry, bool written) {
+    declare(entry, written);
     for (void* p : handed) {
       Info& info = pages[p];
       info.entry = entry;
@@ -233,7 +248,11 @@ inline uint8_t pat(int thread, int seq, size_t i) {
   x ^= x >> 29; x *= 0xBF58476D1CE4E5B9ULL; x ^= x >> 32;
   return (uint8_t)x;
 }
-std::string make_frame(int thread, int seq, size_t len) {
+// an entry that went through the front end ends with the newline AsyncLogStream::do_end appends (counted in len)
+inline uint8_t frame_byte(int thread, int seq, size_t i, size_t len, bool stream) {
+  return stream && i + 1 == len ? (uint8_t)'\n' : pat(thread, seq, i);
+}
+std::string make_frame(int thread, int seq, size_t len, bool stream = false) {
   std::string s(len, '\0');
   if (len == 1) {
     s[0] = (char)(0x40 | (thread << 4) | seq);
@@ -244,14 +263,16 @@ std::string make_frame(int thread, int seq, size_t len) {
   s[2] = (char)(len & 0xFF);
   s[3] = (char)((len >> 8) & 0xFF);
   s[4] = (char)((len >> 16) & 0xFF);
-  for (size_t i = 5; i < len; i++) s[i] = (char)pat(thread, seq, i);
+  for (size_t i = 5; i < len; i++) s[i] = (char)frame_byte(thread, seq, i, len, stream);
   return s;
 }
 
 struct EntryPlan {
   int thread, seq, file;
   size_t len;
-  int chunking;  // 0 one sputn, 1 two sputn split at a page edge +-1, 2 sputc head then sputn, 3 ostream <<
+  int chunking;  // 0 one sputn, 1 two sputn split at a page edge +-1, 2 sputc head then sputn, 3 ostream <<,
+                 // 4 front end (AsyncLogStream)
+  uint32_t shape = 0;  // front end: how the pieces are streamed (see stream_entry)
   bool discard;
   int id;        // harness entry id
   bool seen = false;
@@ -300,13 +321,90 @@ struct World {
   std::vector<EntryPlan> entries;
 };
 
+// ---- front end ---------------------------------------------------------------------------------------
+// One AsyncLogStream per (logging thread, file), made by the public factory. The header formatter the stream calls
+// from do_begin() writes the first two bytes of the frame; begin(args...) writes the next three; the body is cut
+// into pieces that go through write(data, n), write(char), operator<< (StringView, char) and format("%s"); the
+// outermost end() appends '\n' and hands the entry to the appender. Shapes (bits of e.shape):
+//   bit 0    a nested begin(args)/end() pair in the middle: must neither repeat the header nor send the entry
+//   bit 1    noflush(); end(); begin(args): suspends the entry, the resuming begin writes no header and no args
+//   bits 2-3 piece size class, bits 4.. piece operation rotation
+struct FrontEnd {
+  const std::string* frame = nullptr;  // what the current entry's formatter has to write
+  std::vector<std::unique_ptr<babylon::LogStream>> streams;
+};
+
+void stream_entry(babylon::LogStream& ls, const std::string& frame, uint32_t shape) {
+  using babylon::StringView;
+  size_t body_end = frame.size() - 1;  // the newline is the stream's
+  ls.begin(frame[2], StringView(frame.data() + 3, 2));
+  size_t pos = 5;
+  static const size_t piece_sizes[] = {1, 7, 61, 1000};
+  size_t piece = piece_sizes[(shape >> 2) & 3];
+  uint32_t rot = shape >> 4;
+  bool nested = shape & 1, suspend = shape & 2;
+  size_t mid = 5 + (body_end - 5) / 2;
+  int k = 0;
+  while (pos < body_end) {
+    if (nested && pos >= mid) {
+      nested = false;
+      ls.begin('X', StringView("never written"));
+      ls.end();
+    }
+    if (suspend && pos >= mid) {
+      suspend = false;
+      ls.noflush();
+      ls.end();
+      ls.begin('Y', StringView("never written"));
+    }
+    size_t n = std::min(piece, body_end - pos);
+    switch ((rot + (uint32_t)k++) % 5) {
+      case 0: ls.write(frame.data() + pos, n); break;
+      case 1: ls << StringView(frame.data() + pos, n); break;
+      case 2: n = 1; ls.write(frame[pos]); break;
+      case 3: n = 1; ls << frame[pos]; break;
+      default: {
+        // format("%s") stops at a NUL: take the run up to the next zero byte
+        size_t m = 0;
+        while (m < n && frame[pos + m] != '\0') m++;
+        if (m == 0) { n = 1; ls.write(frame[pos]); break; }
+        n = m;
+        std::string piece_str(frame.data() + pos, n);
+        ls.format("%s", piece_str.c_str());
+        break;
+      }
+    }
+    pos += n;
+  }
+  ls.end();
+}
+
 void logging_thread(World& w, int thread, const std::vector<int>& mine) {
   LogStreamBuffer buf;
   buf.set_page_allocator(w.appender->page_allocator());
   std::vector<void*> handed;
   int t = dsched::tid();
+  FrontEnd fe;
+  fe.streams.resize(w.files.size());
   for (int idx : mine) {
     EntryPlan& e = w.entries[(size_t)idx];
+    if (e.chunking == 4) {
+      std::string frame = make_frame(e.thread, e.seq, e.len, true);
+      auto& slot = fe.streams[(size_t)e.file];
+      if (!slot) {
+        FrontEnd* fep = &fe;
+        slot = babylon::AsyncLogStream::creator(*w.appender, *w.files[(size_t)e.file], [fep](babylon::AsyncLogStream& ls) {
+          ls.write(fep->frame->data(), 2);
+        })();
+      }
+      fe.frame = &frame;
+      w.alloc->declare(e.id, true);
+      w.alloc->cur_entry[t] = e.id;
+      stream_entry(*slot, frame, e.shape);
+      w.alloc->cur_entry[t] = -1;
+      fe.frame = nullptr;
+      continue;
+    }
     std::string frame = make_frame(e.thread, e.seq, e.len);
     handed.clear();
     w.alloc->collecting[t] = &handed;
@@ -408,6 +506,25 @@ void run_case(Chooser& c) {
     dsched::describe(" discard-heavy(all entries but every 4th are discarded)");
     dsched::label("discard_heavy");
   }
+  // front end (drawn after everything else, so earlier choices keep their meaning): in a third of the cases every
+  // other written entry of at least 6 bytes goes through an AsyncLogStream
+  if (c.below(3) == 1) {
+    bool any = false;
+    for (auto& e : w.entries) {
+      uint32_t shape = c.below(1u << 10);
+      if (!e.discard && e.len >= 6 && (shape >> 9) == 0) {
+        e.chunking = 4;
+        e.shape = shape;
+        any = true;
+        if (shape & 1) dsched::label("front_end_nested_begin_end");
+        if (shape & 2) dsched::label("front_end_noflush_resume");
+      }
+    }
+    if (any) {
+      dsched::describe(" front-end(AsyncLogStream for every entry drawn so)");
+      dsched::label("front_end");
+    }
+  }
   dsched::label(("page_" + std::to_string(ps)).c_str());
 
   size_t cap = 0;
@@ -492,7 +609,7 @@ void run_case(Chooser& c) {
       if (len != e.len) dsched::fail("frames", "file %d offset %zu: frame (thread %d, seq %d) announces %zu bytes, written with %zu", f->index, pos, thread, seq, len, e.len);
       if (pos + len > s.size()) dsched::fail("frames", "file %d offset %zu: frame (thread %d, seq %d) of %zu bytes is cut off at %zu", f->index, pos, thread, seq, len, s.size());
       for (size_t i = 5; i < len; i++)
-        if ((uint8_t)s[pos + i] != pat(thread, seq, i))
+        if ((uint8_t)s[pos + i] != frame_byte(thread, seq, i, len, e.chunking == 4))
           dsched::fail("intact", "file %d: entry (thread %d, seq %d, %zu bytes) differs from what was streamed at byte %zu (file offset %zu): 0x%02x", f->index, thread, seq, len,
                        i, pos + i, (uint8_t)s[pos + i]);
       if (e.discard) dsched::fail("exactly-once", "file %d: discarded entry (thread %d, seq %d) reached a file", f->index, thread, seq);
